@@ -59,6 +59,11 @@ def programs(ctx):
             progs.append([base_line, "Watch: X > 1", f"    {t} Mark: a", "Wait: 3s"])
             for t2 in THRESH[unit][:2]:
                 progs.append([base_line, f"{t} Mark: a", f"{t2} Mark: b"])
+        if unit == "L":
+            # a threshold in an outer block after a nested block has ended (the block clock must still be the outer block's)
+            for t in THRESH[unit]:
+                progs.append([base_line, "Wait: 0.5s", "Block: A", "    Block: B", "        Mark: p", "        End block",
+                              f"    {t} Mark: a", "    End block", "Mark: z"])
         # base change after a first threshold
         for unit2, base2 in bases:
             if unit2 != unit:
@@ -159,6 +164,17 @@ def judge(lines, run: Run, forced=False):
                     probs.append((f"C03:threshold-early:reference-clock:{base}",
                                   f"{raw!r} started in tick {s}: since the scope clock last restarted (tick {k0}) only {ref} s passed in "
                                   f"ticks that were Running, threshold {T} {base} (engine's Scope Time {clock})"))
+            if base == "L" and li["parent"] is not None and info[li["parent"]]["name"] == "Block":
+                # independent lower bound for the block's volume clock: the harness feeds 0.05 L per tick, so since the
+                # block became the active one at most 0.05 L x ticks can have accumulated (2 ticks of slack)
+                bname = info[li["parent"]]["arg"]
+                k_a = next((k for k in range(len(run.obs)) if run.obs[k]["pre_clocks"]["Block"] == bname), None)
+                if k_a is not None and k_a <= s:
+                    ref = Decimal("0.05") * (s - k_a + 1)
+                    if ref + Decimal("0.1") < Tn:
+                        probs.append(("C03:threshold-early:reference-volume:L:block",
+                                      f"{raw!r} started in tick {s}: block {bname} has been active since tick {k_a - 1}, at most {ref} L "
+                                      f"can have passed in it, threshold {T} L (engine's block clock {clock})"))
             if clock < Tn:
                 probs.append((f"C03:threshold-early:{base}:{'block' if run.obs[s]['pre_clocks']['Block'] else 'scope'}",
                               f"{raw!r} started in tick {s} although the clock before that tick was {clock} {cu} < threshold {T} {base}"))
